@@ -397,6 +397,35 @@ impl<T: CellT + std::hash::Hash> Machine<T> {
                 }
                 res_unit()
             }
+            "sort_by_row_key" => {
+                arr.sort_by_row_key(conc[0], |x| { fault::tick(fault::Site::Key); x.key() });
+                res_unit()
+            }
+            "sort_by_col_key" => {
+                arr.sort_by_col_key(conc[0], |x| { fault::tick(fault::Site::Key); x.key() });
+                res_unit()
+            }
+            "sort_row_ord" => {
+                arr.sort_row_ord::<()>(conc[0]);
+                res_unit()
+            }
+            "sort_col_ord" => {
+                arr.sort_col_ord::<()>(conc[0]);
+                res_unit()
+            }
+            "clone_from_slice" => {
+                use toodee::CopyOps;
+                arr.clone_from_slice(&supplied);
+                drop(supplied);
+                res_unit()
+            }
+            "clone_from_toodee" => {
+                use toodee::CopyOps;
+                let src: TooDee<T> = TooDee::from_vec(get_u64(a, "nc") as usize, get_u64(a, "nr") as usize, supplied);
+                arr.clone_from_toodee(&src);
+                drop(src);
+                res_unit()
+            }
             "clone_from" => {
                 let snc = get_u64(a, "nc") as usize;
                 let snr = get_u64(a, "nr") as usize;
@@ -522,8 +551,8 @@ pub fn index_args(op: &str, a: &Value) -> Vec<u64> {
         "swap_rows" => vec![get_u64(a, "r1"), get_u64(a, "r2")],
         "swap_cols" => vec![get_u64(a, "c1"), get_u64(a, "c2")],
         "translate" => vec![get_u64(a, "mc"), get_u64(a, "mr")],
-        "sort_by_row" => vec![get_u64(a, "row")],
-        "sort_by_col" => vec![get_u64(a, "col")],
+        "sort_by_row" | "sort_by_row_key" | "sort_row_ord" => vec![get_u64(a, "row")],
+        "sort_by_col" | "sort_by_col_key" | "sort_col_ord" => vec![get_u64(a, "col")],
         _ => vec![],
     }
 }
